@@ -120,7 +120,26 @@ func (w *isolated) close() {
 	}
 }
 
+// run performs h under the bound.  A timeout is confirmed by a second run in a fresh child with
+// four times the bound (at least 60 s), so that a machine busy with other work does not turn slow
+// progress into a reported hang; the second verdict counts.
 func (w *isolated) run(h *History) Verdict {
+	v := w.runOnce(h, bound(h))
+	if v.Crashed && v.Kind == "timeout" {
+		b := 4 * bound(h)
+		if b < 60*time.Second {
+			b = 60 * time.Second
+		}
+		v2 := w.runOnce(h, b)
+		if !v2.Crashed {
+			v2.Rep.Notes = append(v2.Rep.Notes, "slow: answered only within the extended bound")
+		}
+		return v2
+	}
+	return v
+}
+
+func (w *isolated) runOnce(h *History, b time.Duration) Verdict {
 	if w.p == nil {
 		p, err := startProc(w.emptyDir)
 		if err != nil {
@@ -134,7 +153,6 @@ func (w *isolated) run(h *History) Verdict {
 	w.p.in.WriteString(base64.StdEncoding.EncodeToString(req))
 	w.p.in.WriteByte('\n')
 	w.p.in.Flush()
-	b := bound(h)
 	timer := time.NewTimer(b)
 	defer timer.Stop()
 	select {
